@@ -10,6 +10,7 @@
 
 mod binning;
 mod chunks;
+mod counts;
 mod flat;
 mod roundtrip;
 mod util;
@@ -89,5 +90,6 @@ fn main() {
         let bound = ctx.by_tier(3, 4);
         ctx.harness(Config::new("rt_handbuilt", bound), |ch| roundtrip::body_handbuilt(ch, &hf));
         flat::run(ctx);
+        counts::run(ctx);
     });
 }
